@@ -5,7 +5,7 @@ UPDATE_ALL = [func("bt.core.StrategyBase.update", variant=v) for v in ("flat", "
 
 ID = "C17"
 META = {
-    "assumptions": ['A-REAL', 'A-COMM', 'A-T', 'A-IND', 'A-DATA-NONE', 'A-CYTHON', 'A-SOLVER', 'A-ENGINE'],
+    "assumptions": ['A-REAL', 'A-COMM', 'A-T', 'A-IND', 'A-CYTHON', 'A-SOLVER', 'A-ENGINE'],
     "explanation": "Each security class's update proved against its functional spec: notional = market value (plain), position (fixed income, coupon paying), 0 with an identically-zero buffer (hedge variants); coupon = position*coupon[t] (raises on NaN with open position), holding cost by sign of position on |position|, capital := coupon - cost (set, not accumulated); update proved to sum |child notional|, sweep parked capital on the next date, move the index additively by 100*pnl/last notional (falling back to current notional; flat when both and pnl are zero; raises otherwise) and weigh children by notional.",
 }
 MANIFEST_ENTRY = {
